@@ -199,3 +199,7 @@ mod tests {
          }
     ];
 }
+
+#[cfg(kani)]
+#[path = "/verif/kani/std_to_int.rs"]
+mod kani_verif;
